@@ -21,7 +21,10 @@ TEMPLATES = {
     "pause_untimed": "Mark: M1\nPause\nMark: M2\n",
     # a Watch whose condition becomes true at tick 6: a cancel may arrive before, in the tick of, or after activation
     "watch_later": "Mark: M1\nWatch: In1 > 0\n    Mark: W1\nMark: M2\nWait: 5s\n",
+    # a timed Hold while the user pauses (tick 5) and unpauses (tick 9): paused and on hold at once
+    "hold_timed_paused": "Mark: M1\nHold: 5s\nMark: M2\n",
 }
+USER_STEPS = {"hold_timed_paused": {5: "Pause", 9: "Unpause"}}
 THOROUGH_TEMPLATES = {
     "alarm": "Mark: M1\nAlarm: In1 > 0\n    Mark: A1\nMark: M2\nWait: 5s\n",
     "two_cmds": "CmdA\nCmdB\nMark: M1\nWait: 5s\n",          # CmdA and CmdB are not mutually exclusive: both run side by side
@@ -47,7 +50,10 @@ def harness(sym):
     durations = {c: sym.int(f"dur_{c}", 4, 8) for c in ("CmdA", "CmdB", "CmdC") if c in pc}
     ev_tick = sym.int("ev_tick", 1, N - 2)
     sym.shard["in1"] = list(IN1.get(t, (0, 0)))
-    sc = run_scenario(sym, t, N, pcode=pc, durations=dict(durations), event=(kind, ev_tick), collect_runlog=True)
+    steps = USER_STEPS.get(t)
+    on_tick = (lambda rig, i: rig.user(steps[i + 1]) if (i + 1) in steps else None) if steps else None     # issued before tick i + 1
+    n = N + (4 if steps else 0)
+    sc = run_scenario(sym, t, n, pcode=pc, durations=dict(durations), event=(kind, ev_tick), collect_runlog=True, on_tick=on_tick)
     sym.check(not sc.tick_errors, f"tick-raised|after={kind}", f"Engine.tick raised {sc.tick_errors[:1]} after {sc.events}")
     if not sc.events:
         return
@@ -56,7 +62,7 @@ def harness(sym):
     tgt = ev["target"]
     if tgt is None or not ev["offered"]:
         # not offered (or unknown id): refused or ignored, and nothing changes
-        base = run_scenario(sym, t, N, pcode=pc, durations=dict(durations), event=("none", None), collect_runlog=False)
+        base = run_scenario(sym, t, n, pcode=pc, durations=dict(durations), event=("none", None), collect_runlog=False, on_tick=on_tick)
         a, b = _observable(sc), _observable(base)
         for key in a:
             sym.check(a[key] == b[key], f"not-offered-request-changed-run|kind={kind}|what={key}|item={_cls(tgt)}",
@@ -70,6 +76,9 @@ def harness(sym):
             bad = "Paused" if name.startswith("Pause") else "Holding"
             sym.check(sc.states[te] != bad, f"cancel-timed-{bad.lower()}-did-not-end",
                       f"cancel of {name} accepted at tick {te} but System State after that tick is {sc.states[te]}")
+            # ... and it stays ended: the state it caused does not come back (e.g. when a simultaneous pause is undone)
+            later = [i for i in range(te, len(sc.states)) if sc.states[i] == bad]
+            sym.check(not later, f"cancel-timed-{bad.lower()}-came-back", f"cancel of {name} accepted at tick {te}; System State is {bad} again at ticks {later}; states {sc.states}")
         elif name in ("CmdA", "CmdB", "CmdC"):
             finals = [x for x in sc.uod if x[1] == name and x[3] == "final"]
             execs_after = [x for x in sc.uod if x[1] == name and x[3] == "exec" and x[0] >= te]
